@@ -30,16 +30,22 @@ A second, fake-free run drives a real working tree / branch / repository stack
 with real LockDirs and applies the same oracle to is_locked(), the lock counts
 and get_physical_lock_status().
 
-The unchanged code violates the property in one way (reported, families
-`branch-over-unlock-releases-repository`, `tree-over-unlock-releases-branch`):
-BzrBranch.unlock / (DirState)WorkingTree.unlock of an object that is NOT locked
-raise LockNotHeld but first run their `finally:` clause, which unlocks the
-repository / branch underneath -- a lock held by somebody else.  The Lean model
-has both the code as it is (`Branch.step`, with `branch_over_unlock_witness`)
-and the guarded variant of the proposed fix (`Branch.stepG`); branch_variant()
-probes which one the working tree implements and ties that one.
+State of /repo (triaged): BzrBranch.unlock has the guard `if not
+control_files.is_locked(): return cant_unlock_not_held(self)` (fix 0445a91; the
+model variant `Branch.stepG`, theorems `branchG_*`); the same guard in the bzr
+working trees had to be reverted (ae1db66, an existing test relies on
+wt.unlock() of a never-locked tree reaching branch.unlock()), so
+(DirState)WorkingTree.unlock of a tree that holds no lock still raises
+LockNotHeld after its `finally:` clause released a branch lock held by somebody
+else: committed known finding, family `tree-over-unlock-releases-branch`
+(oracle only; the tree has no Lean model).  branch_variant() and tree_variant()
+probe the two layers independently; the branch variant selects the model that
+is tied (`Branch.step` = unguarded, with `branch_over_unlock_witness`;
+`Branch.stepG` = guarded).  If the branch guard is lost again the unguarded
+model is tied, the correspondence stays clean and the oracle reports the
+over-unlock as a plain VIOLATION (no family) with the 2-step input [pr, bu].
 
-Mutants this was built against (scratch worktree with the proposed fix applied,
+Mutants this was built against (scratch worktree with the guards applied,
 so that the baseline is clean; all caught, "oracle" = concrete failing input):
   M1  CountedLock.unlock `elif self._lock_count == 1` -> `<= 2`            oracle
   M2  CountedLock.lock_write: ReadOnlyError branch disabled                 oracle
@@ -56,6 +62,7 @@ so that the baseline is clean; all caught, "oracle" = concrete failing input):
   M12 PackRepository.lock_write re-locks the fallbacks when already locked  oracle
   M13 BzrBranch.lock_read re-locks the repository on nested calls           oracle (workflow)
   M14 DirStateWorkingTree.unlock releases the branch only at the last unlock oracle (workflow)
+  M15 BzrBranch.unlock guard reverted (on the current /repo)                  oracle, no family
 Harmless (stay clean): reordered assignments in CountedLock.lock_read,
 `== 0` -> `not`, `> 1` -> `>= 2`, `bool()` in is_locked, restructured took_lock.
 """
@@ -432,16 +439,16 @@ SUBJECTS = {"cl": SubjCL, "lf": SubjLF, "repo": SubjRepo, "branch": SubjBranch}
 # ---------------------------------------------------------------- oracle
 def classify(kind, op, bal, _unused=None):
     """family slug of a violation, computed from the concrete failing step:
-    `bal` = successful locks minus unlocks per target before the step"""
-    t, b, p = bal.get("t", 0), bal.get("b", 0), bal.get("p", 0)
-    if kind in ("branch", "tree"):
-        if op == "bu" and b == 0 and t == 0 and p > 0:
-            return "branch-over-unlock-releases-repository"
-        if op == "tu" and t == 0 and b > 0:
-            return "tree-over-unlock-releases-branch"
-        if op == "tu" and t == 0 and b == 0 and p > 0:
-            # WorkingTree.unlock -> (refused) Branch.unlock -> repository.unlock
-            return "branch-over-unlock-releases-repository"
+    `bal` = successful locks minus unlocks per target before the step.
+    Only the committed known finding is classified: unlock of a working tree that
+    holds no lock while its branch is locked by somebody else.  The former family
+    `branch-over-unlock-releases-repository` is fixed in /repo (guard in
+    BzrBranch.unlock, 0445a91): if that behaviour returns -- directly (`bu`) or
+    through a tree (`tu` with the branch unlocked and the repository held) -- it
+    gets no family and is a plain VIOLATION."""
+    t, b = bal.get("t", 0), bal.get("b", 0)
+    if kind == "tree" and op == "tu" and t == 0 and b > 0:
+        return "tree-over-unlock-releases-branch"
     return None
 
 
@@ -578,6 +585,26 @@ def run_sequence(ctx, subj, ext, ops, record=True):
 
 
 # ---------------------------------------------------------------- fake-free working tree stack
+def tree_variant(path):
+    """Which WorkingTree.unlock does the working tree implement (probed
+    independently of the branch variant)?  `unguarded`: unlock of a tree that
+    holds no lock reaches branch.unlock() (the committed known finding F36);
+    `guarded`: refused first.  The tree has no Lean model; this is evidence only."""
+    from breezy.workingtree import WorkingTree
+    wt = WorkingTree.open(path)
+    wt.branch.lock_read()
+    try:
+        wt.unlock()
+    except Exception:  # noqa
+        pass
+    v = "guarded" if wt.branch.is_locked() else "unguarded"
+    n = 0
+    while wt.branch.is_locked() and n < 10:
+        wt.branch.unlock()
+        n += 1
+    return v
+
+
 def tree_stack(ctx, n_seq, maxlen):
     """real working tree / branch / repository with real LockDirs; oracle only"""
     from breezy.workingtree import WorkingTree
@@ -589,6 +616,7 @@ def tree_stack(ctx, n_seq, maxlen):
 
     state = _tree_state
 
+    ctx.extra["tree_unlock_variant"] = tree_variant(path)
     seqs = []
     for n in range(1, 4):
         seqs += [list(s) for s in itertools.product(ops_all, repeat=n)] if n <= ctx.pick(2, 3) else []
